@@ -296,6 +296,17 @@ def run_ellipse(c, res):
 
 def run_ellipse_refuse(res):
     import FlowCal
+    # degenerate inputs: no events, one event
+    for n in (0, 1):
+        a0 = np.arange(3. * n).reshape(n, 3) + 1.0
+        for log in (False, True):
+            try:
+                full = FlowCal.gate.ellipse(a0, [0, 2], center=(1.0, 3.0) if not log else (0.0, 0.5), a=1.5, b=1.0, theta=0.3, log=log, full_output=True)
+                short = FlowCal.gate.ellipse(a0, [0, 2], center=(1.0, 3.0) if not log else (0.0, 0.5), a=1.5, b=1.0, theta=0.3, log=log)
+                exp = [True] * n
+                check_gate_output(res, 'ellipse:degenerate', 'ellipse(array with %d events, log=%s)' % (n, log), a0, full, short, exp, dict(kind='ellipse_refuse'), nontrivial=True)
+            except Exception as e:
+                res.violation('ellipse:degenerate-raises', 'ellipse on an array with %d events (log=%s) raised %s: %s' % (n, log, type(e).__name__, e), dict(kind='ellipse_refuse'))
     arr = np.arange(12.).reshape(4, 3)
     for chans in ([0], [0, 1, 2], []):
         one = dict(kind='ellipse_refuse')
